@@ -121,6 +121,18 @@ def d2(cx: Cx, ob: Ob) -> None:
         chain = []
         x = seq
         while True:
+            if op(x) == "new" and x[1] == "list":
+                # a list built by appending inside a loop: follow the loop's iterable
+                apps = [(ev, c2) for ev, c2 in s.mutations_of(x) if ev.kind == "expr" and callee_name(ev.a) == "append" and c2.loops]
+                if len({id(c2.loops[-1]) for _, c2 in apps}) == 1 and not (op(x[4]) == "list" and x[4][1]):
+                    chain.append(("builder", x))
+                    x = apps[0][1].loops[-1].b
+                    continue
+                break
+            if op(x) == "item" and op(x[1]) not in ("const",):
+                # subscript into the mapping (d[k]) does not change the order of the keys
+                x = x[1]
+                continue
             if op(x) == "comp" and len(x[3]) == 1:
                 chain.append(("comp", x))
                 x = x[3][0][1]
@@ -183,29 +195,34 @@ def d3(cx: Cx, ob: Ob) -> None:
         ob.violate(fn.qualname, fn.where, "discover never applies the cutoff", detail="no-cutoff")
         return
     seen = set()
+    none_ok = False
+    cmps = []
+    cut = ("param", "cutoff")
     for c, comp, line in filters:
         if c in seen:
             continue
         seen.add(c)
-        ob.site(f"{where(fn, line)} {fn.qualname}", f"filter {show(c)[:70]}")
-        parts = c[1] if op(c) == "or" else (c,)
-        none_ok = any(p == ("cmp", "is", ("param", "cutoff"), ("const", None)) for p in parts) or any(op(p) == "not" and p[1] == ("param", "cutoff") for p in parts)
-        if any(op(p) == "not" and p[1] == ("param", "cutoff") for p in parts) or any(p == ("param", "cutoff") for p in parts):
-            ob.violate(fn.qualname, where(fn, line), "the cutoff is tested by truthiness: cutoff=0 behaves like no cutoff only by accident and the intent is lost", detail="cutoff-truthiness") if False else None
-        if not none_ok:
-            ob.violate(fn.qualname, where(fn, line), "the filter does not let everything through when cutoff is None", detail="none-case")
-        cmp_ = [p for p in parts if op(p) == "cmp" and any(y == ("param", "cutoff") for y in subterms(p)) and p[1] in (">=", ">", "<=", "<", "==")]
-        for p in cmp_:
-            o, a, b = p[1], p[2], p[3]
-            if b != ("param", "cutoff") and a == ("param", "cutoff"):
-                o = {"<=": ">=", "<": ">", ">=": "<=", ">": "<"}.get(o, o)
-                a, b = b, a
-            if o != ">=":
-                ob.violate(fn.qualname, where(fn, line), f"the cutoff comparison is `{o}`, not `>=`: a prefix with exactly `cutoff` identifiers is {'dropped' if o == '>' else 'mishandled'}", witness="cutoff=2 and a URI prefix seen with exactly 2 distinct identifiers", detail=f"cutoff-op:{o}")
-            if not (op(a) == "call" and op(a[1]) == "builtin" and a[1][1] == "len"):
-                ob.violate(fn.qualname, where(fn, line), f"the cutoff is compared with `{show(a)[:40]}`, not the number of identifiers", detail="cutoff-lhs")
-        if not cmp_:
-            ob.undecide(f"cutoff filter `{show(c)[:60]}` not recognised")
+        ob.site(f"{where(fn, line)} {fn.qualname}", f"cutoff test {show(c)[:70]}")
+        for x in subterms(c):
+            if op(x) == "cmp" and x[1] in ("is", "==", "is not", "!=") and x[2] == cut and is_const(x[3], None):
+                none_ok = True
+            if op(x) == "cmp" and x[1] in (">=", ">", "<=", "<") and cut in (x[2], x[3]):
+                cmps.append((x, line))
+    if not none_ok:
+        ob.violate(fn.qualname, fn.where, "no test lets every URI prefix through when cutoff is None", detail="none-case")
+    if not cmps:
+        ob.undecide("cutoff comparison not recognised")
+    for x, line in cmps:
+        o, a, b = x[1], x[2], x[3]
+        if a == cut:
+            o = {"<=": ">=", "<": ">", ">=": "<=", ">": "<"}[o]
+            a, b = b, a
+        # `len(luids) < cutoff` is the skip form of `>=`; `<=` the skip form of `>`
+        keep_op = {"<": ">=", "<=": ">"}.get(o, o)
+        if keep_op != ">=":
+            ob.violate(fn.qualname, where(fn, line), f"the cutoff comparison `{show(x)[:40]}` keeps a prefix only with MORE than `cutoff` identifiers: a prefix with exactly `cutoff` identifiers is dropped", witness="cutoff=2 and a URI prefix seen with exactly 2 distinct identifiers", detail=f"cutoff-op:{keep_op}")
+        if not (op(a) == "call" and op(a[1]) == "builtin" and a[1][1] == "len"):
+            ob.violate(fn.qualname, where(fn, line), f"the cutoff is compared with `{show(a)[:40]}`, not the number of identifiers", detail="cutoff-lhs")
 
 
 @obligation("C19-D4", "the key stored is head + delimiter of uri.rsplit(delimiter, maxsplit=1) with an alphanumeric tail; delimiters are tried in the given order and the first success breaks", floor=1)
